@@ -386,10 +386,91 @@ pub fn get_ebpf_file_path() -> PathBuf {
     bpf_file_path
 }
 
+/// Verification hook (only with `--cfg azure_guestproxyagent_verif`): a process-global stand-in for
+/// the kernel audit map, consulted by `lookup_audit` / `remove_audit` once enabled, plus an
+/// append-only trace of the lookups and removals made through it.
+#[cfg(azure_guestproxyagent_verif)]
+pub mod verif_hooks {
+    use super::{AuditEntry, BpfErrorType, Error, Result};
+    use std::collections::HashMap;
+    use std::sync::Mutex;
+
+    type Raw = (u64, u32, i32, u32, u16);
+    static AUDIT: Mutex<Option<HashMap<u16, Raw>>> = Mutex::new(None);
+    static TRACE: Mutex<Vec<(&'static str, u16, bool)>> = Mutex::new(Vec::new());
+
+    pub fn enable() {
+        let mut m = AUDIT.lock().unwrap();
+        if m.is_none() {
+            *m = Some(HashMap::new());
+        }
+    }
+
+    pub fn inject(source_port: u16, e: AuditEntry) {
+        if let Some(m) = AUDIT.lock().unwrap().as_mut() {
+            m.insert(
+                source_port,
+                (e.logon_id, e.process_id, e.is_admin, e.destination_ipv4, e.destination_port),
+            );
+        }
+    }
+
+    pub fn ports() -> Vec<u16> {
+        let mut v: Vec<u16> = match AUDIT.lock().unwrap().as_ref() {
+            Some(m) => m.keys().cloned().collect(),
+            None => vec![],
+        };
+        v.sort();
+        v
+    }
+
+    pub fn take_trace() -> Vec<(&'static str, u16, bool)> {
+        std::mem::take(&mut *TRACE.lock().unwrap())
+    }
+
+    pub fn lookup(source_port: u16) -> Option<Result<AuditEntry>> {
+        let g = AUDIT.lock().unwrap();
+        let m = g.as_ref()?;
+        let r = m.get(&source_port).map(|r| AuditEntry {
+            logon_id: r.0,
+            process_id: r.1,
+            is_admin: r.2,
+            destination_ipv4: r.3,
+            destination_port: r.4,
+        });
+        TRACE.lock().unwrap().push(("lookup", source_port, r.is_some()));
+        Some(r.ok_or_else(|| {
+            Error::Bpf(BpfErrorType::MapLookupElem(
+                source_port.to_string(),
+                "no entry (verif stand-in)".to_string(),
+            ))
+        }))
+    }
+
+    pub fn remove(source_port: u16) -> Option<Result<()>> {
+        let mut g = AUDIT.lock().unwrap();
+        let m = g.as_mut()?;
+        let found = m.remove(&source_port).is_some();
+        TRACE.lock().unwrap().push(("remove", source_port, found));
+        Some(if found {
+            Ok(())
+        } else {
+            Err(Error::Bpf(BpfErrorType::MapDeleteElem(
+                source_port.to_string(),
+                "no entry (verif stand-in)".to_string(),
+            )))
+        })
+    }
+}
+
 pub async fn lookup_audit(
     source_port: u16,
     redirector_shared_state: &RedirectorSharedState,
 ) -> Result<AuditEntry> {
+    #[cfg(azure_guestproxyagent_verif)]
+    if let Some(r) = verif_hooks::lookup(source_port) {
+        return r;
+    }
     if let Ok(Some(bpf_object)) = redirector_shared_state.get_bpf_object().await {
         bpf_object.lock().unwrap().lookup_audit(source_port)
     } else {
@@ -401,6 +482,10 @@ pub async fn remove_audit(
     source_port: u16,
     redirector_shared_state: &RedirectorSharedState,
 ) -> Result<()> {
+    #[cfg(azure_guestproxyagent_verif)]
+    if let Some(r) = verif_hooks::remove(source_port) {
+        return r;
+    }
     if let Ok(Some(bpf_object)) = redirector_shared_state.get_bpf_object().await {
         bpf_object
             .lock()
